@@ -222,9 +222,10 @@ package badger
 // memtables newest first and the levels, all in the requested direction, and reads at the
 // transaction's read timestamp.
 //@ func (*Txn).NewIterator
-//@   props C04 C01 C05
+//@   props C04 C01 C05 C15
 //@   light
 //@   assert[pending-direction] before call newPendingWritesIterator : arg0 == txn && arg1 == opt.Reverse
+//@   assert[iterator-counted-for-gc] before call newPendingWritesIterator : called(incrIteratorCount#1)
 //@   assert[pending-first] before call append#1 : len(arg0) == 0
 //@   assert[memtable-direction] before call NewUniIterator : arg0 == tables[i].sl && arg1 == opt.Reverse
 //@   loop 1 invariant[memtables-in-order] 0 <= i && i <= len(tables) && (len(iters) == i || len(iters) == i + 1)
@@ -1328,6 +1329,36 @@ package badger
 //@   assert[written-back-before-unregister] before call Lock : called(iterate#1) && ret1(iterate#1) == nil
 //@   assert[immediate-delete-only-without-iterators] before call delete : ret(iteratorCount#1) == 0 && held(vlog.filesLock)
 //@   assert[delete-only-when-unregistered] before call deleteLogFile : arg1 == f && deleteFileNow
+
+// Iterators and deferred file deletion: an iterator is counted from NewIterator (see there) to
+// Close, exactly once; when the last one closes, exactly the files whose deletion was deferred
+// are unregistered and deleted; a file is deleted under its own lock; GC never picks the file
+// that is being written.
+//@ func (*Iterator).Close
+//@   props C15
+//@   light
+//@   assert[counted-down-once] before call decrIteratorCount : !old(it.closed) && it.closed && arg0 == it.txn.db.vlog && old(it.iitr != nil)
+//@   assert[closed-twice-is-a-no-op] before return#1 : old(it.closed)
+
+//@ func (*valueLog).decrIteratorCount
+//@   props C15
+//@   light
+//@   assert[only-when-last-iterator-closed] before call Lock : ret(Add#1) == 0
+//@   assert[deferred-files-only] before call delete : held(vlog.filesLock) && arg1 == id
+//@   assert[deleted-after-unlock] before call deleteLogFile : !held(vlog.filesLock) && len(vlog.filesToBeDeleted) == 0
+
+//@ func (*valueLog).deleteLogFile
+//@   props C15
+//@   light
+//@   assert[under-file-lock] before call Delete : held(lf.lock) && lf != nil
+
+//@ func (*valueLog).pickLog
+//@   props C15
+//@   light
+//@   assert[never-the-file-being-written] before return#4 : ret0(MaxDiscard#1) < vlog.maxFid && result == vlog.filesMap[ret0(MaxDiscard#1)]
+//@   assert[below-threshold-not-picked] before return#3 : result == nil
+//@   assert[current-file-not-picked] before return#5 : result == nil && ret0(MaxDiscard#1) >= vlog.maxFid
+//@   assert[nothing-to-discard] before return#1 : result == nil && ret0(MaxDiscard#1) == 0
 
 // ---- reading log records back (C16) ----
 
